@@ -4,7 +4,7 @@ from common import Case, enc
 
 PID = "C19"
 RULE = ("EXHAUSTIVE: every sequence of 0-6 segments from {'..', '.', 'a', 'b', ''} joined by '/', with and without a leading "
-        "'/' (39 062 strings; quick: up to 5 segments), through PkgPath::new with both accessors and re-parsing; plus 'x:y' "
+        "'/' (39 062 strings; quick: up to 5 segments), the same over names mixing multi-byte characters with ASCII (quick: up to 4 segments), through PkgPath::new with both accessors and re-parsing; plus 'x:y' "
         "combinations of valid/invalid patterns and paths with 0-3 colons through Depend::new; "
         "non-trivial = the string has >= 2 segments")
 FUNCTIONAL = True
@@ -25,6 +25,21 @@ def generate(rng, tier):
                     continue
                 seen.add(s)
                 cases.append(Case("path.new", [enc(s)], meta={"s": s}))
+    # the same small scope over names that MIX multi-byte characters with ASCII (character index != byte offset from the
+    # first such character on: every cut computed one way and used the other lands inside or beside a segment)
+    segs2 = ["..", ".", "", "éa", "naïve", "日ab"] + ([] if tier == "quick" else ["é", "a😀b"])
+    for n in range(0, 5 if tier == "quick" else 6):
+        for tup in itertools.product(segs2, repeat=n):
+            if not any(ord(ch) > 127 for t in tup for ch in t):
+                continue
+            for lead in ("", "/"):
+                s = lead + "/".join(tup)
+                if s in seen:
+                    continue
+                seen.add(s)
+                cases.append(Case("path.new", [enc(s)], meta={"s": s}))
+    for q in ["../../naïve/..", "../../éa/", "../../日ab/.", "../../naïve/pkg", "naïve/..", "../../éa/éa"]:
+        cases.append(Case("dep.new", [enc("pkg-[0-9]*:" + q)], meta={"s": "x:" + q}))
     for s in ["foo/bar", "foo//bar//", "../../foo/bar/", "..//..//foo//bar//", "\0", ".. /../foo/bar", "é/漢", "a b/c d", "a/b/.", "./", "a/b//./.", "../../a/.b", "../../.a/b.", "a/..b"]:
         cases.append(Case("path.new", [enc(s)], meta={"s": s}))
     # names have no length limit (254 / 255 / 256 / 1000 / 5000 bytes), may start with dots, contain ':'-free odd characters
